@@ -18,7 +18,10 @@ from sim.streams import SimReader, ReadBudgetExceeded
 
 PROPERTY = 'C03'
 LEVEL = 'exploration'
-CASE_TIMEOUT = 90
+CASE_TIMEOUT = 600
+PER_CALL_S = 20          # bounded liveness: one library call on <= 64 KiB of input (>= 1000x its normal cost)
+HANG_CONFIRM_S = 1500    # isolated re-execution of a suspected hang, per-call limit x10
+MAX_NESTING = 300        # the property bounds nesting below the recursion limit
 RULE = ('one evaluation = one load (scan | parse | compose | compose_all) x (pure Python | LibYAML) x (in memory | SimReader '
         'stream) of one corpus/synthetic document after 0-5 seeded channel faults; non-trivial = at least one fault was '
         'applied and changed the unit string; distinct = distinct digests of the delivered unit string')
@@ -370,6 +373,31 @@ def bad_uri_escape(units, is_text):
     return False
 
 
+def nesting_estimate(units, is_text):
+    """Upper estimate of the nesting depth a text can reach: open flow brackets, and the longest run of
+    repeated block indicators ('- - - ...', '? ? ? ...') on one line."""
+    import re
+    if is_text:
+        text = units
+    elif units[:2] == b'\xff\xfe':
+        text = units.decode('utf-16-le', 'replace')
+    elif units[:2] == b'\xfe\xff':
+        text = units.decode('utf-16-be', 'replace')
+    else:
+        text = units.decode('latin-1')
+    depth = best = 0
+    for ch in text:
+        if ch in '[{':
+            depth += 1
+            if depth > best:
+                best = depth
+        elif ch in ']}' and depth:
+            depth -= 1
+    for m in re.finditer(r'(?:[-?:][ \t]+){50,}', text):
+        best = max(best, len(re.findall(r'[-?:]', m.group())))
+    return best
+
+
 def check_marks(exc, units, is_text, lim):
     import yaml
     bad = []
@@ -400,6 +428,12 @@ def execute(case):
         out['faults'][f['kind']] = out['faults'].get(f['kind'], 0) + 1
     if not case['faults']:
         out['extra']['fault_free_runs'] = 1
+    if nesting_estimate(units, is_text) > MAX_NESTING:
+        # e.g. a stuttered '[' or '- ': nesting beyond the recursion limit is outside the property's quantifier
+        # (and the pure-Python scanner's cost per token grows with the flow level, which is C20's subject)
+        out['extra']['nesting_beyond_bound_out_of_scope'] = 1
+        out['log'] = 'deep'
+        return out
     have_c = getattr(yaml, '__with_libyaml__', False)
     has_surrogate = is_text and any('\ud800' <= c <= '\udfff' for c in units)
     lim = [None, None, None]
@@ -423,12 +457,13 @@ def execute(case):
             n_items = 0
             exc = None
             try:
-                if api == 'compose':
-                    yaml.compose(src, Loader=L)
-                    n_items = 1
-                else:
-                    for _ in getattr(yaml, api)(src, Loader=L):
-                        n_items += 1
+                with kernel.watchdog(PER_CALL_S * kernel.hang_scale[0]):
+                    if api == 'compose':
+                        yaml.compose(src, Loader=L)
+                        n_items = 1
+                    else:
+                        for _ in getattr(yaml, api)(src, Loader=L):
+                            n_items += 1
             except yaml.YAMLError as e:
                 exc = e
             except RecursionError:
